@@ -19,6 +19,8 @@ OBLIGATIONS = [
 ASSUMPTIONS = [
     "requested topic-partitions are pairwise distinct (DESIGN section 5); a decodable backend reply lists exactly the partitions of its sub-request (true of the broker's handleProduce/handleFetch; replies of another shape are exercised for correspondence only)",
     "a backend that answers NOT_LEADER_OR_FOLLOWER for a partition has not appended to it",
+    "fetch replies of the scripted backends carry a record payload naming (topic, partition, send); a merged reply entry whose records belong to another topic-partition "
+    "(e.g. topics merged under one entry when a v13+ fetch addresses topics by id only) is reported by the monitor",
     "sub-requests of one attempt are independent (sync.WaitGroup fan-out); Go's random map order is a parameter `ord` of the model (any permutation per attempt)",
     "scripted backends always read the request frame before failing; `down=all` is all-or-nothing per case; backend hangs (no reply, connection kept open) are not generated: forwardToBackend has no deadline",
     "two concurrent clients: exercised on disjoint topic sets with separate per-connection pools (as handleConnection creates them) and backends that hold replies until both clients' sub-requests are in flight; the model runs them one after the other on the shared routing table (their Invalidate calls commute)",
@@ -251,6 +253,11 @@ def monitor(op, impl_line, all_down=False):
         if got != sorted(req):
             return ("reply-entries-not-one-per-partition",
                     "requested %s, reply lists %s" % (sorted(req), got))
+    # (2') a successful fetch entry carries the records the backend returned for THAT topic-partition (the harness compares
+    #      the entry's record bytes with the payload id of its own (topic, partition, send) and notes a mismatch)
+    if fetch and "records_of_" in kv(impl_line, "anomaly"):
+        return ("reply-carries-another-partitions-records",
+                "a fetch reply entry carries records of another topic-partition: %s" % kv(impl_line, "anomaly"))
     # (2) success only if a backend reported success
     for t, p, c, m in reply:
         if c == 0 and (t, p) in req:
